@@ -71,7 +71,7 @@ pub fn decode_ast_case(data: &[u8]) -> Option<c01::Case> {
         for _ in 0..nalts {
             if u.ratio(1, 7)? {
                 let lo = if hyph && u.ratio(1, 10)? { None } else { Some(partial(&mut u, true, wild)?) };
-                alts.push(Alt::Hyphen { lo, hi: partial(&mut u, true, wild)? });
+                alts.push(Alt::Hyphen { lo, hi: partial(&mut u, true, wild)?, pad: (0, if u.ratio(1, 6)? { 1 } else { 0 }) });
             } else {
                 let nt = if empty && nalts > 1 && u.ratio(1, 12)? { 0 } else { u.int_in_range(1..=3usize)? };
                 let mut toks = vec![];
@@ -93,7 +93,9 @@ pub fn decode_ast_case(data: &[u8]) -> Option<c01::Case> {
         for _ in 0..nv {
             extra.push(mversion(&mut u)?);
         }
-        Ok(c01::Case { ast: RangeAst { alts, ors }, extra })
+        let lead = if u.ratio(1, 10)? { " " } else { "" };
+        let trail = if u.ratio(1, 10)? { " " } else { "" };
+        Ok(c01::Case { ast: RangeAst { alts, ors, lead: lead.to_string(), trail: trail.to_string() }, extra })
     })();
     r.ok()
 }
